@@ -72,6 +72,36 @@ def concrete(x):
     return x
 
 
+def decode_choice(code, sizes):
+    """One symbolic integer encodes a tuple of finite selectors (mixed radix): realising a
+    single variable costs ~1-2 paths per value, several variables multiply the overhead."""
+    total = 1
+    for n in sizes:
+        total *= n
+    assume(0 <= code < total)
+    # binary search on the symbolic value: exactly one path per value, log2(total) cheap branches each
+    lo, hi = 0, total - 1
+    while lo < hi:
+        mid = (lo + hi) // 2
+        if code <= mid:
+            hi = mid
+        else:
+            lo = mid + 1
+    c = lo
+    out = []
+    for n in reversed(sizes):
+        out.append(c % n)
+        c //= n
+    return list(reversed(out))
+
+
+def encode_choice(values, sizes):
+    c = 0
+    for v, n in zip(values, sizes):
+        c = c * n + v
+    return c
+
+
 def mkbytes(ints):
     """bytes from a sequence of (possibly symbolic) ints without realising them."""
     if _tracing():
